@@ -178,11 +178,17 @@ class Obligation:
             split = t.get('split', split)
         return params, timeout, split
 
+    def params_for(self, tier, label):
+        if label == 'all':
+            return self.for_tier(tier)[0]
+        return dict(self.partitions(tier))[label]
+
     def partitions(self, tier):
         """list of (label, params-with-consts)"""
         params, timeout, split = self.for_tier(tier)
         if not split:
             return [('all', params)]
+        # ('all' is also always available through unsplit())
         doms = []
         for s in split:
             d = params[s].domain()
